@@ -498,3 +498,30 @@ def _numeric_arm(t):
             if not (isinstance(a, Const) and a.v is None):
                 return a
     return t
+
+
+def check_models_order(ctx, led, prop):
+    """Every object model built in this run fixes one iteration order for the parsed metric map;
+    what the property's rules establish on it holds for every field order only if construction
+    never iterates that map (C05's rule, discharged here for the models this run used)."""
+    n = 0
+    done = set(v_["rule"] + v_["construct_key"] for v_ in led.violations if "order" in v_["rule"])
+    for mk, om in list(ctx.memo.items()):
+        if not (isinstance(mk, tuple) and mk and mk[0] == "objmodel") or isinstance(om, Exception):
+            continue
+        n += 1
+        for e in om.events(init_only=True):
+            if e.kind != "input_order_iter":
+                continue
+            ck = "%s::%s" % (e.func.qualname if e.func else "?", short(e.node))
+            if any(ck in d for d in done):
+                continue
+            done.add(ck)
+            led.violation(
+                "%s.model.order" % prop,
+                ck,
+                e.where(),
+                "construction iterates the parsed metric map (%s): its order is the input's field order, so the state this "
+                "property is decided on is the state for one field order only" % e.data.get("what"),
+            )
+    return n
